@@ -856,65 +856,88 @@ def judge_walk(run, cfg, walk, obs, model):
                      'responses': obs['responses'], 'found_by': 'real-driven walk'})
 
 
-def gen_requests(run):
-    rng = run.rng
-    reqs = []
-    thorough = run.thorough
+BATCH = 12000
 
-    def enum(cfg, per, starts, pb, limit, skip=0):
-        reqs.append(('enum', cfg, {'op': 'enum', 'cfg': cfg_json(cfg), 'perSender': per, 'starts': starts,
-                                   'pb': pb, 'limit': limit, 'skip': skip}))
+
+def enum_plan(run):
+    """(cfg, perSender, starts, preemption bound, max schedules or None = all, skip)"""
+    rng, th = run.rng, run.thorough
     c111 = {'n': 1, 'maxQ': 0, 'ncb': 1}
-    enum(c111, 1, 1, 2, 400)                                           # all 192
-    enum(c111, 1, 1, 3, 1400)                                          # all 1356
-    enum({'n': 1, 'maxQ': 0, 'ncb': 2}, 2, 2, 2, 2000 if thorough else 400, 0 if thorough else rng.randrange(300))
-    enum({'n': 1, 'maxQ': 1, 'ncb': 1}, 2, 1, 2, 2000 if thorough else 300, 0 if thorough else rng.randrange(100))
-    enum({'n': 2, 'maxQ': 0, 'ncb': 1}, 1, 1, 2, 1700 if thorough else 400, 0 if thorough else rng.randrange(1200))
-    enum({'n': 2, 'maxQ': 1, 'ncb': 1}, 1, 1, 2, 1700 if thorough else 300, 0 if thorough else rng.randrange(1200))
-    if thorough:
-        enum({'n': 1, 'maxQ': 0, 'ncb': 1}, 2, 2, 3, 8000, rng.randrange(3000))
-        enum({'n': 2, 'maxQ': 0, 'ncb': 2}, 1, 1, 3, 8000, rng.randrange(20000))
-        enum({'n': 2, 'maxQ': 1, 'ncb': 1}, 2, 1, 3, 8000, rng.randrange(20000))
-        enum({'n': 3, 'maxQ': 2, 'ncb': 1}, 1, 1, 2, 8000, rng.randrange(20000))
-    nwalk = 90000 if thorough else 2500
-    for _ in range(nwalk):
+    plan = [
+        # the smallest configuration: ALL complete schedules (138 511, any number of preemptions) in the
+        # thorough tier, all with <= 4 preemptions (5 853) in the quick tier
+        (c111, 1, 1, 64 if th else 4, None, 0),
+        ({'n': 1, 'maxQ': 0, 'ncb': 2}, 2, 2, 2, 2000 if th else 400, 0 if th else rng.randrange(300)),
+        ({'n': 1, 'maxQ': 1, 'ncb': 1}, 2, 1, 2, 2000 if th else 300, 0 if th else rng.randrange(100)),
+        ({'n': 2, 'maxQ': 0, 'ncb': 1}, 1, 1, 2, 1700 if th else 400, 0 if th else rng.randrange(1200)),
+        ({'n': 2, 'maxQ': 1, 'ncb': 1}, 1, 1, 2, 1700 if th else 300, 0 if th else rng.randrange(1200)),
+    ]
+    if th:
+        plan += [
+            ({'n': 1, 'maxQ': 0, 'ncb': 1}, 2, 2, 3, 6000, rng.randrange(3000)),
+            ({'n': 2, 'maxQ': 0, 'ncb': 2}, 1, 1, 3, 6000, rng.randrange(20000)),
+            ({'n': 2, 'maxQ': 1, 'ncb': 1}, 2, 1, 3, 6000, rng.randrange(20000)),
+            ({'n': 3, 'maxQ': 2, 'ncb': 1}, 1, 1, 2, 6000, rng.randrange(20000)),
+        ]
+    return plan
+
+
+def walk_requests(run, n):
+    rng, thorough = run.rng, run.thorough
+    reqs = []
+    for _ in range(n):
         cfg = {'n': rng.choice([1, 2, 2, 3, 3]), 'maxQ': rng.choice([0, 0, 1, 2, 3]), 'ncb': rng.choice([1, 1, 2])}
         if thorough and rng.random() < 0.1:
             cfg = {'n': rng.choice([4, 5]), 'maxQ': rng.choice([0, 2, 5]), 'ncb': rng.choice([1, 2, 3])}
-        reqs.append(('walk', cfg, {'op': 'walk', 'cfg': cfg_json(cfg), 'seed': rng.randrange(1 << 60),
-                                   'maxlen': rng.choice([25, 40, 60, 90, 140]),
-                                   'perSender': rng.choice([1, 2, 3, 3, 5 if thorough else 3]),
-                                   'starts': rng.choice([1, 1, 2, 3]), 'extraStops': rng.choice([0, 0, 1]),
-                                   'sticky': rng.choice([0, 30, 60, 85])}))
+        reqs.append((cfg, {'op': 'walk', 'cfg': cfg_json(cfg), 'seed': rng.randrange(1 << 60),
+                           'maxlen': rng.choice([25, 40, 60, 90, 140]),
+                           'perSender': rng.choice([1, 2, 3, 3, 5 if thorough else 3]),
+                           'starts': rng.choice([1, 1, 2, 3]), 'extraStops': rng.choice([0, 0, 1]),
+                           'sticky': rng.choice([0, 30, 60, 85])}))
     return reqs
 
 
-def schedules(run):
-    """[(cfg, labels, pcs, model_final, origin)] from the model driver"""
-    reqs = gen_requests(run)
-    answers = common.run_driver(PROP, [r[2] for r in reqs])
-    runs = []
-    rerun = []
-    for (kind, cfg, _), a in zip(reqs, answers):
-        if kind == 'enum':
-            run.count('enum-traces:n%d-q%d-cb%d' % (cfg['n'], cfg['maxQ'], cfg['ncb']), len(a['traces']))
-            if a.get('truncated'):
-                run.count('enum-truncated')
-            for tr in a['traces']:
-                rerun.append((cfg, tr))
-        else:
+def schedule_batches(run):
+    """yields lists [(cfg, labels, pcs, model_final, origin)] of at most BATCH schedules from the model driver"""
+    for (cfg, per, starts, pb, cap, skip) in enum_plan(run):
+        done = 0
+        key = 'enum-traces:n%d-q%d-cb%d-x%d-s%d-pb%d' % (cfg['n'], cfg['maxQ'], cfg['ncb'], per, starts, pb)
+        while True:
+            page = BATCH if cap is None else min(BATCH, cap - done)
+            if page <= 0:
+                run.count('enum-capped')
+                break
+            a = common.run_driver(PROP, [{'op': 'enum', 'cfg': cfg_json(cfg), 'perSender': per, 'starts': starts,
+                                          'pb': pb, 'limit': page, 'skip': skip + done}])[0]
+            trs = a['traces']
+            if not trs:
+                break
+            run.count(key, len(trs))
+            ans = common.run_driver(PROP, [{'op': 'run', 'cfg': cfg_json(cfg), 'labels': tr} for tr in trs])
+            out = []
+            for tr, m in zip(trs, ans):
+                if 'stuck' in m:
+                    run.disagree({'cfg': cfg, 'labels': tr}, m, None, 'enumerated schedule not executable in the model')
+                else:
+                    out.append((cfg, m['labels'], m['pcs'], m['final'], 'enum'))
+            yield out
+            done += len(trs)
+            if not a.get('truncated'):
+                if cap is None:
+                    run.count('enum-complete(all schedules with <= %d preemptions):n%d-x%d-cb%d' % (pb, cfg['n'], per, cfg['ncb']), done)
+                break
+    nwalk = 30000 if run.thorough else 2500
+    while nwalk > 0:
+        reqs = walk_requests(run, min(BATCH, nwalk))
+        nwalk -= len(reqs)
+        answers = common.run_driver(PROP, [r[1] for r in reqs])
+        out = []
+        for (cfg, _), a in zip(reqs, answers):
             if 'stuck' in a:
                 run.disagree({'cfg': cfg}, a, None, 'model walk produced a label that is not enabled')
-                continue
-            runs.append((cfg, a['labels'], a['pcs'], a['final'], 'walk'))
-    if rerun:
-        ans = common.run_driver(PROP, [{'op': 'run', 'cfg': cfg_json(cfg), 'labels': tr} for cfg, tr in rerun])
-        for (cfg, tr), a in zip(rerun, ans):
-            if 'stuck' in a:
-                run.disagree({'cfg': cfg, 'labels': tr}, a, None, 'enumerated schedule not executable in the model')
-                continue
-            runs.append((cfg, a['labels'], a['pcs'], a['final'], 'enum'))
-    return runs
+            else:
+                out.append((cfg, a['labels'], a['pcs'], a['final'], 'walk'))
+        yield out
 
 
 def shrink_case(cfg, labels, kind):
@@ -1014,8 +1037,9 @@ def check_source_facts(run):
 def run(run):
     _register_module()
     check_source_facts(run)
-    run.rule = ('schedules of the Lean model (systematic enumeration with preemption bound 2-3 for 1-3 senders x 1-2 '
-                'indications, and seeded random walks with 1-5 senders, 1-5 indications each, 1-3 callbacks, queue '
+    run.rule = ('schedules of the Lean model (ALL complete schedules of the 1 sender x 1 indication x 1 callback x 1 cycle '
+                'configuration in the thorough tier (those with <= 4 preemptions in the quick tier), systematic '
+                'enumeration with preemption bound 2-3 for 1-3 senders x 1-2 indications, and seeded random walks with 1-5 senders, 1-5 indications each, 1-3 callbacks, queue '
                 'bound 0/1/2/3/5, 1-3 start()/stop() cycles, raising callbacks) replayed step by step on the real '
                 'WBEMListener under a deterministic scheduler; distinct = distinct (config, label sequence); '
                 'every schedule ends with stop() and is followed by an unscheduled start();stop() restart probe')
@@ -1029,20 +1053,25 @@ def run(run):
         'not modelled: HTTPS twin server, start() failure path (_stop_indication_delivery(immediate=True)), '
         '_queue_full log flag, BaseException (non-Exception) raised by a callback',
     ]
-    scheds = schedules(run)
     run.extra.pop('_shrunk', None)
-    items = [(cfg, labels, pcs) for (cfg, labels, pcs, final, origin) in scheds]
-    t0 = time.time()
-    results = common.pmap(work, items, chunksize=16)
-    run.extra['real_wall_s'] = round(time.time() - t0, 1)
-    for (cfg, labels, pcs, final, origin), obs in zip(scheds, results):
-        if 'crash' not in obs:
-            obs['_pcs'] = pcs
-        busy = len(final['enq']) > 0
-        run.case({'cfg': cfg, 'labels': ' '.join(labels)}, nontrivial=busy)
-        judge(run, cfg, labels, pcs, final, obs, origin)
-        if 'crash' not in obs:
-            stats(run, cfg, labels, final, obs, origin)
+    real_wall = 0.0
+    for scheds in schedule_batches(run):
+        items = [(cfg, labels, pcs) for (cfg, labels, pcs, final, origin) in scheds]
+        t0 = time.time()
+        results = common.pmap(work, items, chunksize=16)
+        real_wall += time.time() - t0
+        for (cfg, labels, pcs, final, origin), obs in zip(scheds, results):
+            if 'crash' not in obs:
+                obs['_pcs'] = pcs
+            busy = len(final['enq']) > 0
+            run.case({'cfg': cfg, 'labels': ' '.join(labels)}, nontrivial=busy)
+            judge(run, cfg, labels, pcs, final, obs, origin)
+            if 'crash' not in obs:
+                stats(run, cfg, labels, final, obs, origin)
+        if len(run.violations) > 400:           # enough evidence; do not spend the whole budget on a broken tree
+            run.notes.append('stopped early after %d violations' % len(run.violations))
+            break
+    run.extra['real_wall_s'] = round(real_wall, 1)
     # schedules chosen from the REAL enabledness (not filtered by the model): the model must follow them
     walks = gen_real_walks(run.rng, 20000 if run.thorough else 1200, run.thorough)
     t0 = time.time()
